@@ -78,6 +78,7 @@ class Node(object):
     has_norm = True
     judge = True        # False: the documentation does not define the formula here
     integer = False     # integer dtype: all alphabets are doubled (even integers), integer scalars
+    warr = False        # weighted by an array (space.weighting.array exists)
     volume = None       # domain volume where ||one||^2 = volume is promised
 
     def make(self, flat, role='x'):
@@ -114,9 +115,13 @@ class Diag(Node):
 
     def make(self, flat, role='x'):
         a = np.asarray(flat).astype(self.dtype).reshape(self.shape)
-        lay = self.lay
-        if lay == 'F' or (lay == 'FC' and role == 'x'):
+        # one code: both operands; two codes: first operand (x), second operand (y)
+        lay = self.lay if len(self.lay) == 1 else self.lay[0 if role == 'x' else 1]
+        if lay == 'F':
             a = np.asfortranarray(a)
+        elif lay == 'T':                        # transposed view of a C-ordered block
+            base = np.array(a.T, order='C', copy=True)
+            a = base.T
         elif lay == 'S':
             big = np.zeros(tuple(2 * s for s in self.shape), dtype=self.dtype)
             view = big[tuple(slice(None, None, 2) for _ in self.shape)]
@@ -208,13 +213,15 @@ def build_tensor(cfg):
         kw['weighting'] = c
         W = c * np.ones(n)
     elif dt.kind in 'iu':                   # integer space: weights must be castable to it
-        w = np.array([WAI[i % len(WAI)] for i in range(n)], dtype=dt).reshape(shape)
+        w = np.array(cfg.get('wv') or [WAI[i % len(WAI)] for i in range(n)],
+                     dtype=dt).reshape(shape)
         if wk == 'arrF':
             w = np.asfortranarray(w)
         kw['weighting'] = w
         W = np.array(w, dtype=float, order='C').ravel()
     else:                                   # 'arr' / 'arrF': per-entry array of the real dtype
-        w = np.array([WA[i % len(WA)] for i in range(n)], dtype=_real_dtype(dt)).reshape(shape)
+        w = np.array(cfg.get('wv') or [WA[i % len(WA)] for i in range(n)],
+                     dtype=_real_dtype(dt)).reshape(shape)
         if wk == 'arrF':
             w = np.asfortranarray(w)
         kw['weighting'] = w
@@ -223,6 +230,7 @@ def build_tensor(cfg):
         kw['exponent'] = p
     node = Diag(_mk_space(shape, dt, **kw), shape, dt, W, p, cfg.get('lay', 'C'))
     node.exact = True
+    node.warr = wk in ('arr', 'arrF')
     return node
 
 
@@ -274,7 +282,7 @@ def build_discr(cfg):
             kw['weighting'] = c
             W = c * np.ones(n)
         else:
-            w = np.array([WA[i % len(WA)] for i in range(n)],
+            w = np.array(cfg.get('wv') or [WA[i % len(WA)] for i in range(n)],
                          dtype=_real_dtype(dt)).reshape(shape)
             kw['weighting'] = w
             W = np.array(w, dtype=float).ravel()
@@ -290,6 +298,7 @@ def build_discr(cfg):
     node.judge = judge
     node.volume = volume
     node.exact = False
+    node.warr = wk == 'arr'
     return node
 
 
@@ -362,15 +371,17 @@ def build_prod(cfg):
         kw['weighting'] = c
         w = [c] * k
     else:
-        w = [PWA[i % len(PWA)] for i in range(k)]
-        kw['weighting'] = list(w)
+        w = list(cfg.get('wv') or [PWA[i % len(PWA)] for i in range(k)])
+        kw['weighting'] = np.array(w, dtype=float)
     if cfg['p'] != 2:
         kw['exponent'] = p
     if power:
         space = odl.ProductSpace(parts[0].space, power, **kw)
     else:
         space = odl.ProductSpace(*[c.space for c in parts], **kw)
-    return Prod(space, parts, w, p)
+    node = Prod(space, parts, w, p)
+    node.warr = not (wk == 'none' or wk.startswith('c'))
+    return node
 
 
 def build_npyfree(cfg):
@@ -859,6 +870,103 @@ def check_node(node, ctx, describe, scope='t'):
 
 
 # ------------------------------------------------------------------------------------------
+# history of in-place changes of a weight array
+#
+# Array weightings keep the array they are given and compare it BY IDENTITY
+# (``ArrayWeighting.__eq__``: "``self.array is getattr(other, 'array', None)``"), and
+# ``weighting.array`` is the documented view of "the weighting array of this instance".  The
+# oracle does not even need that: after every step inner / norm / dist must equal the documented
+# formula evaluated with the CURRENT contents of ``space.weighting.array`` (whatever the object
+# shows), and the values of a fresh space built from a copy of those contents.
+
+def _subnode(node, path):
+    for i in path:
+        node = node.parts[i]
+    return node
+
+
+def _refresh(node):
+    """Re-read the reference weights from what the odl objects show now."""
+    if isinstance(node, Prod):
+        for c in node.parts:
+            _refresh(c)
+        if node.warr:
+            node.w = [float(v) for v in np.asarray(node.space.weighting.array).ravel()]
+    elif isinstance(node, Diag) and node.warr:
+        node.W = np.array(node.space.weighting.array, dtype=float, order='C').ravel()
+
+
+def _freeze(node, cfg):
+    """Configuration of a fresh space with copies of the weights the objects show now."""
+    out = dict(cfg)
+    if cfg['kind'] == 'prod':
+        out['parts'] = [_freeze(c, pc) for c, pc in zip(node.parts, cfg['parts'])]
+        if node.warr:
+            out['wv'] = [float(v) for v in np.asarray(node.space.weighting.array).ravel()]
+    elif node.warr:
+        out['wv'] = np.array(node.space.weighting.array, dtype=float, order='C').ravel().tolist()
+    return out
+
+
+def _overwrite(w, k):
+    """k-th in-place change of a weight array (values stay positive and dyadic)."""
+    if k % 3 == 0:
+        w *= 2
+        return 'w *= 2'
+    if k % 3 == 1:
+        w[(0,) * w.ndim] = 7
+        return 'w[0] = 7'
+    w[(-1,) * w.ndim] *= 0.25
+    return 'w[-1] *= 0.25'
+
+
+def run_history(cfg, ctx):
+    scfg = cfg['space']
+    node = build(scfg)
+    target = _subnode(node, cfg['target'])
+    done = []
+    nover = 0
+    modes = []
+    for step in list(cfg['hist']) + ['E']:          # the final state is always observed
+        if step == 'O':
+            done.append(_overwrite(target.space.weighting.array, nover))
+            nover += 1
+            continue
+        done.append('evaluate')
+        _refresh(node)
+        shown = np.asarray(target.space.weighting.array).ravel().tolist()
+        desc = '%s; history (on space.%sweighting.array): %s; weights shown now: %s' % (
+            _describe(scfg), ''.join('[%d].' % i for i in cfg['target']), ', '.join(done), shown)
+        mode, gram, _ = check_node(node, ctx, desc, 'p')
+        modes.append(mode)
+        # differential: a fresh space built from a copy of the shown weights
+        fresh = build(_freeze(node, scfg))
+        _, vecs, pairs, lab = vectors(node, 'p')
+        for (i, j) in pairs[:12]:
+            for op in (['inner'] if node.has_inner else []) + (['norm'] if node.has_norm else []) \
+                    + ['dist']:
+                if op in ctx.broken:
+                    continue
+                if op == 'norm':
+                    a = ctx.call(op, lambda: node.make(vecs[i]).norm(), lambda: lab[i])
+                    b = ctx.call(op, lambda: fresh.make(vecs[i]).norm(), lambda: lab[i])
+                else:
+                    a = ctx.call(op, lambda: getattr(node.make(vecs[i]), op)(node.make(vecs[j], 'y')),
+                                 lambda: '%s, %s' % (lab[i], lab[j]))
+                    b = ctx.call(op, lambda: getattr(fresh.make(vecs[i]), op)(
+                        fresh.make(vecs[j], 'y')), lambda: '%s, %s' % (lab[i], lab[j]))
+                if a is None or b is None:
+                    continue
+                a, b = complex(a), complex(b)
+                tol = 1e-5 if node.single else 1e-12
+                if not abs(a - b) <= tol * max(abs(a), abs(b)):
+                    ctx.report('%s_differs_from_fresh_space_with_the_shown_weights' % op,
+                               lambda: '%s x=%s y=%s: space with history %s, fresh space %s'
+                               % (desc, lab[i], lab[j], a, b))
+    return node, modes
+
+
+# ------------------------------------------------------------------------------------------
 # configurations
 
 def _regime(n):
@@ -914,6 +1022,8 @@ def site_of(cfg):
             tags += ',mixed-precision'
         return 'ProductSpace[%s,%s,w=%s,%s]' % (cfg['name'], tags, _wcls(cfg['w']),
                                                 _pcls(cfg['p']))
+    if k == 'whist':
+        return 'array_weight_history[%s,%s]' % (cfg['name'], _pcls(cfg['space']['p']))
     if k == 'custom':
         return 'custom[%s=,%s]' % (cfg['which'], cfg['base'])
     if k == 'npyfree':
@@ -975,6 +1085,17 @@ def _tensor_configs(thorough):
     if thorough:
         big += [([99], 'C'), ([50000], 'C'), ([50001], 'S'), ([3, 16667], 'C'),
                 ([3, 16667], 'FC'), ([16667, 3], 'F'), ([10, 10], 'F'), ([3, 16667], 'S')]
+    # operands stored in different memory orders (C, F, wrapped transposed view T, strided S),
+    # all pairs, below and above the 50 000-entry switch of the real inner product
+    pairs = ['CF', 'FC', 'TC', 'CT', 'F'] + (['C', 'T', 'FT', 'TF', 'SF', 'CS', 'S']
+                                              if thorough else [])
+    for sh in ([10, 10], [250, 201]):
+        for lay in pairs:
+            for dt in (('float64', 'float32', 'complex128') if thorough else ('float64',)):
+                for w in ['none', 'c0.5', 'arr'] + (['arrF'] if thorough and 'S' not in lay
+                                                    else []):
+                    for p in (ps if thorough else ([2, 1.5] if w == 'arr' else [2])):
+                        out.append(T(sh, dt, w, p, lay))
     for sh, lay in big:
         for dt in (('float64', 'complex128', 'float32', 'complex64') if thorough
                    else ('float64', 'complex128', 'float32')):
@@ -1036,6 +1157,10 @@ def _discr_configs(thorough):
                    [(0, 0), (0, 0), (0, 0)]):
             for ext in ('wide', 'cellinv'):
                 out.append(DS([2, 3, 2], bd, ext, 'float64', 'default', 2))
+            # a one-cell axis (extent != 1) in every axis position
+            for sh in ([1, 3, 2], [2, 1, 3], [3, 2, 1], [1, 1, 2]):
+                for p in (2, 1.5):
+                    out.append(DS(sh, bd, 'wide', 'float64', 'default', p))
     # ---- large grids (size regimes behind the boundary scaling)
     for sh, bd in (([50001], [(1, 0)]), ([100], [(1, 1)]), ([3, 16667], [(0, 1), (1, 1)])):
         for dt in ('float64', 'float32') + (('complex128',) if thorough else ()):
@@ -1101,6 +1226,54 @@ def _gdiscr_configs(thorough):
     # cell-volume weighting exists (ConstWeighting: "expected positive constant"), not admissible
     return [c for c in out
             if not any(n == 1 and ol + oh == 0 for n, (ol, oh) in zip(c['shape'], c['off']))]
+
+
+HISTS = ['E', 'O', 'EE', 'EO', 'OE', 'OO', 'EEE', 'EEO', 'EOE', 'EOO', 'OEE', 'OEO', 'OOE', 'OOO']
+HISTS_Q = ['O', 'EO', 'OE', 'OO', 'EOE', 'OEO']
+
+
+def _whist_configs(thorough):
+    """Every array weighting kind x exponent x every order of (evaluate, overwrite in place) up
+    to length 3 (quick: a subset), the final state always evaluated."""
+    L = _leaves()
+    ps = PS_T if thorough else PS_Q
+    sp = []     # (name, exponents, space configuration as a function of p, path of the target)
+    sp.append(('tensor[3]', ps, lambda p: T([3], w='arr', p=p), []))
+    sp.append(('tensor[2,3],F-ordered', ps, lambda p: T([2, 3], w='arrF', p=p, lay='F'), []))
+    sp.append(('uniform_discr[3]', ps, lambda p: DS([3], [(0, 0)], 'wide', w='arr', p=p), []))
+    sp.append(('uniform_discr[3],bdry', ps,
+               lambda p: DS([3], [(1, 0)], 'wide', w='arr', p=p), []))
+    sp.append(('ProductSpace:pow2(rn2)', ps, lambda p: PR('pow2(rn2)', [L['rn2']], 'arr', p, 2),
+               []))
+    sp.append(('ProductSpace:rn1&rn2&rn3wa', ps,
+               lambda p: PR('rn1&rn2&rn3wa', [L['rn1'], L['rn2'], L['rn3wa']], 'arr', p), []))
+    sp.append(('ProductSpace:inner-node', ps,
+               lambda p: PR('(rn2&rn1 w=arr)&rn3wa', [PR('in', [L['rn2'], L['rn1']], 'arr', p),
+                                                      T([3], w='arr', p=p)], 'c2.0', p), [0]))
+    sp.append(('ProductSpace:leaf', ps,
+               lambda p: PR('pow2(rn3wa)', [T([3], w='arr', p=p)], 'none', p, 2), [0]))
+    if thorough:
+        sp.append(('tensor[3],complex', ps, lambda p: T([3], 'complex128', w='arr', p=p), []))
+        sp.append(('tensor[2,2],float32', ps, lambda p: T([2, 2], 'float32', w='arr', p=p), []))
+        sp.append(('tensor[100]', ps, lambda p: T([100], w='arr', p=p), []))
+        sp.append(('uniform_discr[2,2],complex', ps,
+                   lambda p: DS([2, 2], [(0, 0), (0, 0)], 'wide', 'complex128', w='arr', p=p), []))
+        sp.append(('ProductSpace:cn2&cn1w', ps,
+                   lambda p: PR('cn2&cn1w', [L['cn2'], L['cn1w']], 'arr', p), []))
+        sp.append(('ProductSpace:ud3b&rn2', ps,
+                   lambda p: PR('ud3b&rn2', [L['ud3b'], L['rn2']], 'arr', p), []))
+        # parts without inner product: only exponents != 2 (p = 2 is the known norm defect)
+        sp.append(('ProductSpace:rn2p1&rn2pinf', [q for q in ps if q != 2],
+                   lambda p: PR('rn2p1&rn2pinf', [L['rn2p1'], L['rn2pinf']], 'arr', p), []))
+        sp.append(('ProductSpace:pow3(rn1),float32-leaf', ps,
+                   lambda p: PR('pow3(rn1f32)', [T([1], 'float32')], 'arr', p, 3), []))
+    out = []
+    for name, pl, mk, path in sp:
+        for p in pl:
+            for h in (HISTS if thorough else HISTS_Q):
+                out.append({'kind': 'whist', 'name': name, 'space': mk(p), 'target': path,
+                            'hist': h})
+    return out
 
 
 def _leaves():
@@ -1210,6 +1383,7 @@ def configs(tier):
     cfgs += _custom_configs(thorough)
     cfgs += _discr_configs(thorough)
     cfgs += _gdiscr_configs(thorough)
+    cfgs += _whist_configs(thorough)
     cfgs += _prod_configs(thorough)
     cfgs += [{'kind': 'empty', 'how': 'power0'}, {'kind': 'empty', 'how': 'field'}]
     # simplest first: by number of entries, then as generated
@@ -1284,6 +1458,18 @@ class Empty(Node):
 def run(cfg):
     site = site_of(cfg)
     ctx = Ctx(site)
+    if cfg['kind'] == 'whist':
+        try:
+            node, modes = run_history(cfg, ctx)
+        except Exception as e:       # noqa
+            return {'evals': max(ctx.evals, 1), 'sig': site + '|raises', 'skipped': ctx.skipped,
+                    'viol': ctx.viol() + [{'site': site, 'symptom': 'raises:' + type(e).__name__,
+                                           'detail': '%s history %s: %r'
+                                           % (_describe(cfg['space']), cfg['hist'], e)}]}
+        return {'evals': ctx.evals, 'viol': ctx.viol(), 'skipped': ctx.skipped,
+                'trivial': ctx.evals == 0,
+                'sig': '%s|hist=%s|judge=%d|%s' % (site, cfg['hist'], node.judge,
+                                                   ','.join(ctx.order) or 'ok')}
     try:
         if cfg['kind'] == 'custom':
             node = Custom(cfg)
@@ -1350,7 +1536,9 @@ def meta(tier):
             'packed alphabet': AL, 'scalars': S_REAL + [str(s) for s in S_CPLX],
             'exponents': PS_T if thorough else PS_Q,
             'dtypes': ['float64', 'complex128', 'float32', 'complex64', 'int64 (tensor spaces)'],
-            'tensor layouts': ['C', 'F', 'x F / y C', 'strided view'],
+            'tensor layouts': ['C', 'F', 'strided view S', 'wrapped transposed view T',
+                               'operand pairs CF FC TC CT FT TF SF CS on (10,10) and (250,201)'],
+            'weight-array histories': (HISTS if thorough else HISTS_Q),
             'tensor sizes': 'all shapes with <= 6 entries listed in _tensor_configs; 99, 100, '
                             '50000, 50001, 3x16667' if thorough else
                             '<= 6 entries; 100, 50001, 3x16667',
